@@ -106,8 +106,19 @@ def run_case(ctx, impl, drv, case):
                 before = cv.stepfile(bds[0])
                 ndirs = len(cv.builddirs())
                 extra = ['-r', older] if older else []
-                r2 = subprocess.run(['bash', os.path.join(impl, 'canvas'), '-d', '-C', cv.conf] + extra, env=cv.env(), cwd=work,
-                                    stdout=subprocess.PIPE, stderr=subprocess.STDOUT, timeout=60)
+                p2 = subprocess.Popen(['bash', os.path.join(impl, 'canvas'), '-d', '-C', cv.conf] + extra, env=cv.env(), cwd=work,
+                                      stdout=subprocess.PIPE, stderr=subprocess.STDOUT, start_new_session=True)
+                try:
+                    out2, _ = p2.communicate(timeout=12)
+                    rc2 = p2.returncode
+                except subprocess.TimeoutExpired:
+                    # it was not refused: it is running steps of its own (waiting at the probes' gates)
+                    cv.kill_all(p2)
+                    out2, rc2 = b'(not refused: still running after 12 s, killed)', 0
+
+                class R2:
+                    returncode, stdout = rc2, out2
+                r2 = R2
                 second = {'rc': r2.returncode, 'builddirs_after': [os.path.basename(b) for b in cv.builddirs()][:1] if len(cv.builddirs()) == ndirs else [os.path.basename(b) for b in cv.builddirs()],
                           'lock_same': cv.lockfile() == lk, 'first_untouched': cv.stepfile(bds[0]) == before,
                           'out': r2.stdout.decode('latin1')[-300:]}
@@ -157,4 +168,59 @@ def run_case(ctx, impl, drv, case):
         return ob
     finally:
         cv.reap_strays()
+        shutil.rmtree(work, ignore_errors=True)
+
+
+# ---- the lock functions alone (C11): util.sh lock_acquire / lock_release vs Orch/RunLock.v ----------------------------
+LOCK_SCRIPT = r"""
+set -u
+. "$1/util.sh"
+setprogname t
+DETACH=0
+op="$2"; b="$3"
+if [ "$op" = acq ]; then lock_acquire root "$b" >/dev/null 2>&1; else lock_release root "$b" >/dev/null 2>&1; fi
+echo "rc=$?"
+if [ -e root/.running ]; then printf 'lock='; od -An -tx1 root/.running | tr -d ' \n'; echo; else echo "lock=none"; fi
+"""
+
+
+def gen_lock_case(rng):
+    """a lock file content (none / empty / a build directory name) and the build directory of the caller; names
+    are chosen so that one is often a proper prefix, suffix or infix of the other (DATE.1 vs DATE.10)"""
+    day = '2026-%02d-%02d' % (rng.randint(1, 12), rng.randint(1, 28))
+    root = rng.choice(['/home/robsd', 'r', '/tmp/x y'])
+    k = rng.randint(1, 12)
+    owner = '%s/%s.%d' % (root, day, k)
+    kind = rng.choice(['same', 'prefix', 'prefix', 'longer', 'suffix', 'other', 'infix', 'none', 'empty'])
+    if kind == 'prefix':
+        # the caller's name is a proper prefix of the owner's: DATE.k while DATE.k0 .. DATE.k9 runs
+        b, owner = owner, owner + str(rng.randint(0, 9))
+    else:
+        b = {'same': owner, 'longer': owner + str(rng.randint(0, 9)), 'suffix': owner[1:],
+             'other': '%s/%s.%d' % (root, day, k + 1), 'infix': '%s.%d' % (day, k), 'none': owner, 'empty': owner}[kind]
+    lock = None if kind == 'none' else ('' if kind == 'empty' else owner)
+    return {'lock_unit': {'op': rng.choice(['acq', 'rel', 'rel']), 'lock': lock, 'b': b, 'kind': kind}}
+
+
+def run_lock_case(ctx, impl, drv, case):
+    c = case['lock_unit']
+    work = tempfile.mkdtemp(dir=ctx.mkscratch('lock'))
+    try:
+        os.makedirs(os.path.join(work, 'root'))
+        if c['lock'] is not None:
+            open(os.path.join(work, 'root', '.running'), 'w').write(c['lock'] + '\n' if c['lock'] else '')
+        env = dict(os.environ)
+        env['PATH'] = orch_env.SHIMS + ':' + env.get('PATH', '/usr/bin:/bin')
+        r = subprocess.run(['bash', '-c', LOCK_SCRIPT, 'lock', impl, c['op'], c['b']], cwd=work, env=env,
+                           stdout=subprocess.PIPE, stderr=subprocess.STDOUT, timeout=30)
+        out = dict(l.split('=', 1) for l in r.stdout.decode('latin1').splitlines() if '=' in l)
+        after = out.get('lock')
+        if after not in (None, 'none'):
+            raw = bytes.fromhex(after)
+            after = (raw[:-1].hex() or '-') if raw.endswith(b'\n') else ('-' if raw == b'' else 'raw:' + after)
+        impl_ans = '%s %s' % ('1' if out.get('rc') == '0' else '0', after)
+        tok = 'none' if c['lock'] is None else common.hexs(c['lock'].encode())
+        model_ans = common.run_driver(drv, ['%s %s %s' % ('lockacq' if c['op'] == 'acq' else 'lockrel', tok, common.hexs(c['b'].encode()))])[0]
+        return model_ans, impl_ans
+    finally:
         shutil.rmtree(work, ignore_errors=True)
